@@ -16,6 +16,9 @@ class FnFin:
     def __init__(self, cx):
         self.cx = cx
 
+    def brk(self, node):
+        raise Unsupported("`break` outside a loop", node)
+
     def fall(self):
         return [self.cx.wrap(None, None)]
 
@@ -27,15 +30,25 @@ class FnFin:
 
 
 class LoopFin:
-    def __init__(self, cx, state, has_ret):
-        self.cx, self.state, self.has_ret = cx, state, has_ret
+    kind = "for"
+
+    def __init__(self, cx, state, has_ret, elem=None):
+        self.cx, self.state, self.has_ret, self.elem = cx, state, has_ret, elem    # elem = (accumulator, element variable)
+
+    def brk(self, node):
+        raise Unsupported("`break` inside a for loop", node)
+
+    def comp(self, v):
+        if self.elem is not None and v == self.elem[0]:
+            return "(%s ++ [%s])" % (ident(v), ident(self.elem[1]))      # the (possibly updated) element goes back into the list
+        return ident(v)
 
     def tuple(self):
         if not self.state:
             return "()"
         if len(self.state) == 1:
-            return ident(self.state[0])
-        return "(" + ", ".join(ident(v) for v in self.state) + ")"
+            return self.comp(self.state[0])
+        return "(" + ", ".join(self.comp(v) for v in self.state) + ")"
 
     def fall(self):
         return [("Sum.inr " if self.has_ret else "") + self.tuple()]
@@ -47,6 +60,26 @@ class LoopFin:
         return ["Sum.inl " + r]
 
 
+class WhileFin(LoopFin):
+    """body of a `while`: one round yields (go_on, state)"""
+    kind = "while"
+
+    def __init__(self, cx, state):
+        LoopFin.__init__(self, cx, state, False)
+
+    def fall(self):
+        return ["(true, %s)" % self.tuple()]
+
+    def brk(self, node):
+        return ["(false, %s)" % self.tuple()]
+
+    def ret(self, v, node):
+        raise Unsupported("`return` inside a while loop", node)
+
+    def through(self, r):
+        raise Unsupported("`return` inside a loop nested in a while loop", None)
+
+
 class FnCtx(ExprMixin):
     def __init__(self, mod, fn):
         self.mod, self.fn = mod, fn
@@ -54,6 +87,9 @@ class FnCtx(ExprMixin):
         self.defined = set()
         self.own = {}
         self.mut_log = []
+        self.pinned = set()
+        self.elem_vars = set()
+        self.while_count = 0
         self.counter = 0
         self.names = {n.id for n in ast.walk(fn.node) if isinstance(n, ast.Name)} | {a.arg for a in ast.walk(fn.node) if isinstance(a, ast.arg)}
 
@@ -78,7 +114,12 @@ class FnCtx(ExprMixin):
         if name == "self" and self.fn.is_method:
             raise Unsupported("assignment to `self`", node)
         if name in self.env and not shadow:
-            unify(self.env[name], t, node, "variable %s (one type per variable)" % name)
+            try:
+                unify(self.env[name], t, node, "variable %s" % name)
+            except Unsupported:
+                if name in self.pinned:
+                    raise Unsupported("variable %s changes its type inside a loop that carries it" % name, node)
+                self.env[name] = t          # rebinding with another type (`x /= n` turns an int into a float): a new `let`
         else:
             self.env[name] = t
         self.defined.add(name)
@@ -99,9 +140,8 @@ class FnCtx(ExprMixin):
             val = v
         else:
             val = "none" if v is None else "(some %s)" % v
-        if fn.mutates:
-            return "self" if val is None else "(self, %s)" % val
-        return "()" if val is None else val
+        parts = (["self"] if fn.mutates else []) + [ident(p) for p in fn.out_params] + ([val] if val is not None else [])
+        return "()" if not parts else (parts[0] if len(parts) == 1 else "(" + ", ".join(parts) + ")")
 
     # ------------------------------------------------------------------ ownership (aliasing) discipline
     def root(self, e):
@@ -121,7 +161,7 @@ class FnCtx(ExprMixin):
         return None
 
     def key(self, loc):
-        return loc[1] if loc[0] == "var" else "self." + loc[1]
+        return loc[1] if loc[0] in ("var", "objattr") else "self." + loc[1]
 
     def share(self, loc):
         self.own[self.key(loc)] = "shared"
@@ -132,6 +172,8 @@ class FnCtx(ExprMixin):
         """`target = value`: decide whether target is a fresh object or an alias"""
         if not is_mutable(t):
             return
+        if target_loc is not None and target_loc[0] == "objattr":
+            target_loc = None
         src = self.root(value_expr)
         if src is None:
             if target_loc is not None:
@@ -161,14 +203,25 @@ class FnCtx(ExprMixin):
             if e.attr not in self.mod.fields:
                 raise Unsupported("unknown attribute self.%s" % e.attr, node)
             return ("attr", e.attr)
+        if isinstance(e, ast.Attribute) and isinstance(e.value, ast.Name) and e.value.id in self.elem_vars:
+            t = self.var_type(e.value.id, node)
+            fields = dict(self.mod.records[t.find().name]["fields"]) if kind(t) == "obj" and t.find().name in self.mod.records else {}
+            if e.attr not in fields:
+                raise Unsupported("attribute .%s is not a declared field of the loop element" % e.attr, node)
+            return ("objattr", e.value.id, e.attr, fields[e.attr])
         raise Unsupported("unsupported assignment / mutation target", node)
 
     def load(self, loc, node):
+        if loc[0] == "objattr":
+            return "%s.%s" % (ident(loc[1]), ident(loc[2])), loc[3]
         if loc[0] == "var":
             return ident(loc[1]), self.var_type(loc[1], node)
         return "self.%s" % ident(loc[1]), self.mod.fields[loc[1]]
 
     def store(self, loc, s, t, node):
+        if loc[0] == "objattr":
+            s = self.coerce(s, t, loc[3], node, "attribute %s.%s" % (loc[1], loc[2]))
+            return ["let %s := { %s with %s := %s }" % (ident(loc[1]), ident(loc[1]), ident(loc[2]), s)]
         if loc[0] == "var":
             self.set_var(loc[1], t, node)
             if s == "[]":                  # empty container: the element type is only known from later uses
@@ -219,6 +272,9 @@ class FnCtx(ExprMixin):
                     and s.value.func.id == "print" and "print" not in self.env:
                 self.mod.record("dropped", self.fn, s, "print call (output is not modelled)")
                 continue
+            if isinstance(s, ast.Expr) and isinstance(s.value, ast.Call) and ast.unparse(s.value.func) in self.mod.ignore_calls:
+                self.mod.record("dropped", self.fn, s, "call of %s (effect not modelled: logging / output)" % ast.unparse(s.value.func))
+                continue
             if isinstance(s, ast.If) and not self.strip(s.body) and not self.strip(s.orelse) and self.pure(s.test):
                 self.mod.record("dropped", self.fn, s, "if statement without effect")
                 continue
@@ -229,7 +285,9 @@ class FnCtx(ExprMixin):
         return out
 
     def pure(self, e):
-        return not any(self.mutating_call(n) is not None for n in ast.walk(e))
+        return not any(self.mutating_call(n) is not None or
+                       (isinstance(n, ast.Call) and (self.mod.object_method(self.fn, n) or (0, 0, {"mutates": False}))[2]["mutates"])
+                       for n in ast.walk(e))
 
     def block(self, stmts, k):
         stmts = self.strip(stmts)
@@ -309,6 +367,13 @@ class FnCtx(ExprMixin):
         if self.mutating_call(e) is not None:
             pre, _, _ = self.hoist(e)
             return pre + self.block(rest, k)
+        om = self.mod.object_method(self.fn, e) if isinstance(e, ast.Call) else None
+        if om is not None and om[2]["mutates"]:
+            field, o, m = om
+            self.check_owned(("attr", field), s, "method call")
+            call = self.mod.calls.object_call(self, e, field, o, m)
+            new = call if m["ret"] is None else "%s.1" % call
+            return ["let self := { self with %s := %s }" % (ident(field), new)] + self.block(rest, k)
         self.ex(e)                      # must be translatable; a pure expression statement has no effect
         self.mod.record("dropped", self.fn, s, "expression statement without effect")
         return self.block(rest, k)
@@ -338,7 +403,34 @@ class FnCtx(ExprMixin):
                  "discard": "PyRt.setRemove %s %s"}[op] % (c, v)
         return self.store(loc, r, tc, node)
 
+    def st_Break(self, s, rest, k):
+        return k.brk(s)
+
+    def static_truth(self, test):
+        """truth value of a condition under the assumed finite domains of the spec (`assume`), else None"""
+        doms = self.mod.assume
+        if not doms:
+            return None
+        results = set()
+        for key, dom in doms.items():
+            if not any(ast.dump(n) == ast.dump(ast.parse(key, mode="eval").body) for n in ast.walk(test)):
+                continue
+            for v in dom:
+                results.add(eval3(test, ast.dump(ast.parse(key, mode="eval").body), v))
+            if results == {True}:
+                return True
+            if results == {False}:
+                return False
+            return None
+        return None
+
     def st_If(self, s, rest, k):
+        st = self.static_truth(s.test)
+        if st is not None:
+            self.mod.record("pruned", self.fn, s, "branch `%s` of `if %s` is never taken under the assumption %s"
+                            % ("else" if st else "then", ast.unparse(s.test), self.mod.assume_text()))
+            self.fn.pruned = True
+            return self.block(list(s.body if st else s.orelse) + rest, k)
         pre, c, tc = self.hoist(s.test)
         unify(tc, TBool, s, "condition of if")
         saved = self.save_scope()
@@ -387,7 +479,64 @@ class FnCtx(ExprMixin):
                     target(n.func.value)
                 if self.mutating_call(n) is not None:
                     add("self")
+                om = self.mod.object_method(self.fn, n)
+                if om is not None and om[2]["mutates"]:
+                    add("self")
         return out
+
+    def st_While(self, s, rest, k):
+        if s.orelse:
+            raise Unsupported("while ... else", s)
+        fuels = self.mod.fuel.get(self.fn.name)
+        if not fuels:
+            raise Unsupported("while loop in %s without a fuel expression in the spec" % self.fn.name, s)
+        idx = self.while_count
+        self.while_count += 1
+        fsrc = fuels[min(idx, len(fuels) - 1)]
+        fs, ft = self.ex(ast.parse(fsrc, mode="eval").body)
+        unify(ft, TInt, s, "fuel expression")
+        body = list(s.body)
+        state = [n for n in self.assigned_in(body) if n in self.defined or (n == "self" and self.fn.is_method)]
+        if "self" in state:
+            state = ["self"] + [n for n in state if n != "self"]
+        if any(isinstance(n, ast.Return) for b in body for n in ast.walk(b)):
+            raise Unsupported("`return` inside a while loop", s)
+        if not state:
+            raise Unsupported("while loop that changes no variable defined before it", s)
+        types = [self.mod.cls_type if n == "self" else self.var_type(n, s) for n in state]
+        saved = self.save_scope()
+        pinned0 = set(self.pinned)
+        self.pinned |= set(state)
+        log0 = len(self.mut_log)
+        if len(state) == 1:
+            sb, st_t, lets = ident(state[0]), types[0], []
+        else:
+            sb, st_t = self.fresh("st"), TProd(types)
+            lets = ["let %s := %s" % (ident(n), proj(sb, i, len(state))) for i, n in enumerate(state)]
+        fin = WhileFin(self, state)
+        cond_true = isinstance(s.test, ast.Constant) and s.test.value is True
+        if cond_true:
+            inner = lets + self.block(body, fin)
+        else:
+            c, tc = self.ex(s.test)
+            unify(tc, TBool, s, "loop condition")
+            inner = lets + ["if (!%s) then" % c] + indent(fin.brk(s)) + ["else"] + indent(self.block(body, fin))
+        for key, node in self.mut_log[log0:]:
+            default = "owned" if key.startswith("self.") else "shared"
+            if self.own.get(key, default) != "owned" and saved[2].get(key, default) == "owned":
+                raise Unsupported("in-place mutation of %s inside a loop that also creates an alias of it" % key, node)
+        own_after = dict(self.own)
+        self.restore_scope(saved)
+        self.pinned = pinned0
+        for key, v in own_after.items():
+            if v == "shared" and key in self.own:
+                self.own[key] = "shared"
+        self.mod.record("fuel", self.fn, s, "while loop #%d: fuel Int.toNat(%s)" % (idx + 1, fsrc))
+        lines = ["let %s := PyRt.whileSt (Int.toNat %s) %s (fun (%s : %s) =>" % (sb, fs, fin.tuple(), sb, self.tref(st_t))]
+        lines += indent(inner, 4)
+        lines[-1] += ")"
+        after = [] if len(state) == 1 else ["let %s := %s" % (ident(n), proj(sb, i, len(state))) for i, n in enumerate(state)]
+        return lines + after + self.block(rest, k)
 
     def st_For(self, s, rest, k):
         if s.orelse:
@@ -399,10 +548,32 @@ class FnCtx(ExprMixin):
         if "self" in state:
             state = ["self"] + [n for n in state if n != "self"]
         has_ret = any(isinstance(n, ast.Return) for b in body for n in ast.walk(b))
+        elem, recv, pre_acc = None, None, []
+        if isinstance(s.target, ast.Name) and any(isinstance(n, ast.Attribute) and isinstance(n.ctx, ast.Store) and isinstance(n.value, ast.Name)
+                                                   and n.value.id == s.target.id for b in body for n in ast.walk(b)):
+            # the body changes attributes of the loop element: the loop rebuilds the list it iterates over and the
+            # rebuilt list is written back to where it came from (a declared observer / field of a record variable)
+            src = s.iter.func if isinstance(s.iter, ast.Call) and not s.iter.args and not s.iter.keywords else s.iter
+            if not (isinstance(src, ast.Attribute) and isinstance(src.value, ast.Name) and src.value.id in self.env
+                    and kind(self.env[src.value.id]) == "obj" and self.env[src.value.id].find().name in self.mod.records):
+                raise Unsupported("loop that changes its elements must iterate over a member of a record variable", s)
+            recv = (src.value.id, src.attr)
+            if has_ret or any(isinstance(n, ast.Name) and n.id == recv[0] for b in body for n in ast.walk(b)):
+                raise Unsupported("loop that changes its elements: `return` / use of the container inside the body", s)
+            if recv[0] in [p[0] for p in self.fn.params] and recv[0] not in self.fn.out_params:
+                raise Unsupported("internal: changed parameter %s was not detected as an out-parameter" % recv[0], s)
+            acc = self.fresh("xs")
+            self.set_var(acc, TList(telem), s)
+            pre_acc = ["let %s : %s := []" % (acc, self.tref(TList(telem)))]
+            state = state + [acc]
+            elem = (acc, s.target.id)
         types = [self.mod.cls_type if n == "self" else self.var_type(n, s) for n in state]
         saved = self.save_scope()
         log0 = len(self.mut_log)
         b, lets = self.bind_target(s.target, telem, "it")
+        if elem is not None:
+            self.elem_vars = self.elem_vars | {elem[1]}
+            self.own[elem[1]] = "owned"
         if len(state) == 0:
             sb, st_t = "_", TUnit
         elif len(state) == 1:
@@ -410,8 +581,10 @@ class FnCtx(ExprMixin):
         else:
             sb, st_t = self.fresh("st"), TProd(types)
             lets = ["let %s := %s" % (ident(n), proj(sb, i, len(state))) for i, n in enumerate(state)] + lets
-        fin = LoopFin(self, state, has_ret)
+        fin = LoopFin(self, state, has_ret, elem)
         inner = lets + self.block(body, fin)
+        if elem is not None:
+            self.elem_vars = self.elem_vars - {elem[1]}
         for key, node in self.mut_log[log0:]:            # an alias created later in the body is alive in the next iteration
             default = "owned" if key.startswith("self.") else "shared"
             if self.own.get(key, default) != "owned" and saved[2].get(key, default) == "owned":
@@ -421,15 +594,18 @@ class FnCtx(ExprMixin):
         for key, v in own_after.items():
             if v == "shared" and key in self.own:
                 self.own[key] = "shared"
-        init = fin.tuple()
+        fin0 = LoopFin(self, state, has_ret)
+        init = fin0.tuple()
         lam = "(fun (%s : %s) (%s : %s) =>" % (sb, self.tref(st_t), b, self.tref(telem))
         if not has_ret:
             if not state:
                 raise Unsupported("loop whose body has no effect on any variable defined before it, but could not be dropped", s)
             head = "let %s := List.foldl %s" % (sb, lam)
-            lines = [head] + indent(inner, 4)
+            lines = pre_acc + [head] + indent(inner, 4)
             lines[-1] += ") %s %s" % (init, it)
             after = [] if len(state) == 1 else ["let %s := %s" % (ident(n), proj(sb, i, len(state))) for i, n in enumerate(state)]
+            if elem is not None:
+                after.append("let %s := { %s with %s := %s }" % (ident(recv[0]), ident(recv[0]), ident(recv[1]), ident(elem[0])))
             return lines + after + self.block(rest, k)
         r = self.fresh("loop_r")
         head = "match PyRt.forLoop (ρ := %s) %s %s %s" % (self.tref(self.fn.full_type(self.mod)), it, init, lam)
@@ -438,3 +614,36 @@ class FnCtx(ExprMixin):
         after = [] if len(state) <= 1 else ["let %s := %s" % (ident(n), proj(sb, i, len(state))) for i, n in enumerate(state)]
         arm2 = after + self.block(rest, k)
         return lines + ["| Sum.inl %s =>" % r] + indent(k.through(r)) + ["| Sum.inr %s =>" % sb] + indent(arm2)
+
+
+def eval3(e, key_dump, v):
+    """three-valued evaluation of a condition in which the expression `key` has the value v: True / False / None"""
+    def val(x):
+        if ast.dump(x) == key_dump:
+            return v
+        if isinstance(x, ast.Constant) and isinstance(x.value, int) and not isinstance(x.value, bool):
+            return x.value
+        return None
+    if isinstance(e, ast.BoolOp):
+        rs = [eval3(x, key_dump, v) for x in e.values]
+        if isinstance(e.op, ast.And):
+            return False if False in rs else (True if all(r is True for r in rs) else None)
+        return True if True in rs else (False if all(r is False for r in rs) else None)
+    if isinstance(e, ast.UnaryOp) and isinstance(e.op, ast.Not):
+        r = eval3(e.operand, key_dump, v)
+        return None if r is None else (not r)
+    if isinstance(e, ast.Compare):
+        left = val(e.left)
+        res = True
+        for op, rn in zip(e.ops, e.comparators):
+            right = val(rn)
+            if left is None or right is None:
+                return None
+            f = {ast.Eq: lambda a, b: a == b, ast.NotEq: lambda a, b: a != b, ast.Lt: lambda a, b: a < b, ast.LtE: lambda a, b: a <= b,
+                 ast.Gt: lambda a, b: a > b, ast.GtE: lambda a, b: a >= b}.get(type(op))
+            if f is None:
+                return None
+            res = res and f(left, right)
+            left = right
+        return res
+    return None
